@@ -177,30 +177,6 @@ theorem snapshot_roundtrip_aux (s : Snapshot) (h : s.WF) :
 
 /-! ### completion of own orders (`fetchLocalBatchSnapshot` / repaired `fetchPendingBatchSnapshot`) -/
 
-theorem applyTypeTlv_rt' (o : Order) (k0 : Kit) :
-    applyTypeTlv (mapOf (recsOf Lser (orderTlvVars o))) (o.baseProj.setKit k0) =
-      match o with
-      | .ask _ a c => .ask k0 a c
-      | .bid _ _ s tk u z => .bid k0 0 s tk u z := by
-  have m6 : "askChannelAnnouncementConstraintsType" ∈ Lser.map (·.1) := by decide
-  have m7 : "askChannelConfirmationConstraintsType" ∈ Lser.map (·.1) := by decide
-  have m8 : "bidSelfChanBalanceType" ∈ Lser.map (·.1) := by decide
-  have m9 : "bidSidecarTicketType" ∈ Lser.map (·.1) := by decide
-  have m10 : "bidUnannouncedChannelType" ∈ Lser.map (·.1) := by decide
-  have m11 : "bidZeroConfType" ∈ Lser.map (·.1) := by decide
-  cases o with
-  | ask k a c =>
-    simp only [Order.baseProj, Order.setKit, applyTypeTlv]
-    rw [parsedNum_mapOf _ _ m6, parsedNum_mapOf _ _ m7, vars_ann_ask, vars_conf_ask]
-    simp
-  | bid k t s tk u z =>
-    simp only [Order.baseProj, Order.setKit, applyTypeTlv]
-    rw [parsedNum_mapOf _ _ m8, parsedBytes_mapOf _ _ m9, parsedNum_mapOf _ _ m10, parsedNum_mapOf _ _ m11]
-    rw [vars_scb_bid, vars_un_bid, vars_zc_bid]
-    cases tk with
-    | none => rw [vars_tk_bid_none]; by_cases hs : s = 0 <;> cases u <;> cases z <;> simp [hs, b2n]
-    | some b => rw [vars_tk_bid_some]; by_cases hs : s = 0 <;> cases u <;> cases z <;> simp [hs, b2n]
-
 /-- **completion**: the base-field projection kept in the snapshot, completed from the order's own bucket
 (as `SubmitOrder` wrote it), is the full order again. -/
 theorem completeOrder_rt (o : Order) (h : o.WF) : completeOrder o.baseProj (some (storeOrder o)) = .ok o [] := by
@@ -215,7 +191,9 @@ theorem completeOrder_rt (o : Order) (h : o.WF) : completeOrder o.baseProj (some
   unfold deserializeOrderTlvData
   rw [hd]
   simp only []
-  rw [applyTypeTlv_rt' o, applyKitTlv_rt o h]
+  rw [applyTypeTlv_rt' o h]
+  simp only []
+  rw [applyKitTlv_rt o h]
   cases o with
   | ask k a c =>
     cases k with
@@ -231,5 +209,13 @@ theorem completeOrder_rt (o : Order) (h : o.WF) : completeOrder o.baseProj (some
     simp only [Order.kit, Kit.baseProj, Order.setKit, Order.baseProj]
     by_cases ha : al.length > 0 <;> by_cases hn : nal.length > 0 <;>
       cases pub <;> simp [ha, hn, keys_nil_of_len, ht]
+
+
+theorem orderTlvVars_tlvProj (o : Order) : orderTlvVars o.tlvProj = orderTlvVars o := by
+  funext t
+  cases o with
+  | ask k a c => cases k; rfl
+  | bid k t' s tk u z => cases k; cases tk <;> rfl
+
 
 end Pool.C10
